@@ -85,6 +85,7 @@ impl Prop for C14 {
             "i16_max",
             "library_command_error",
             "library_execution_error_range",
+            "non_decimal_literal_wider_than_64_bits",
             "library_execution_error_buffer",
             "standard_code_lookup",
             "library_execution_error_below_minimum",
@@ -328,6 +329,9 @@ impl Prop for C14 {
                         stats.state_str(&format!("{}|{}", kind, e.code));
                         let want_cmd = matches!(exp, ExpErr::CommandClass | ExpErr::Code(-113) | ExpErr::Code(-108) | ExpErr::Code(-109));
                         let want_exec = matches!(exp, ExpErr::ExecClass | ExpErr::Code(-225));
+                        if want_exec && s.msg.units.iter().any(|u| u.params.iter().any(crate::model::nondec_wide)) {
+                            stats.probe("non_decimal_literal_wider_than_64_bits");
+                        }
                         if want_cmd {
                             stats.probe("library_command_error");
                             if !is_command_error(e.code) {
